@@ -1068,7 +1068,7 @@ def gen_parser_case(rng, kind, stream, small, check):
             e = rng.choice(ast)
             j = rng.randrange(len(e[1]))
             b = e[1][j]
-            what = rng.choice(["same", "s-sp", "repeat", "same"])
+            what = rng.choice(["same", "s-sp", "repeat", "same", "chain", "chain"])
             if what == "same":
                 l = b[0][0] if len(b[0]) == 1 else 0
                 b2 = gen_block(rng, file_style, True, ls=[l])
@@ -1078,6 +1078,22 @@ def gen_parser_case(rng, kind, stream, small, check):
                     nb = gen_block(rng, file_style, True, ls=[l])
                 nb[1] = list(b2[1])
                 e[1][j:j + 1] = [b2, nb]
+            elif what == "chain":
+                # 2-3 consecutive blocks sharing one exponent list, each a single-l or a combined (SP, SPD, ...)
+                # block: P then SP, SP then P, SP then SP, D then SPD, ... (the merge rule looks at the shell
+                # appended last, which for a combined block changes from one angular momentum to the next)
+                first = gen_block(rng, file_style, True)
+                chain = [first]
+                lpool = sorted(set(first[0]) | {0, 1, 2})
+                for _ in range(rng.randint(1, 2)):
+                    r = rng.random()
+                    ls = [rng.choice(lpool)] if r < 0.4 else [0, 1] if r < 0.75 else [0, 1, 2] if r < 0.9 else None
+                    nb = gen_block(rng, file_style, True, ls=ls)
+                    while len(nb[1]) != len(first[1]):
+                        nb = gen_block(rng, file_style, True, ls=ls)
+                    nb[1] = list(first[1])
+                    chain.append(nb)
+                e[1][j:j + 1] = chain
             elif what == "s-sp":
                 s = gen_block(rng, file_style, True, ls=[0])
                 sp = gen_block(rng, file_style, True, ls=[0, 1])
@@ -1189,6 +1205,10 @@ def gen_cases(tier, seed):
             stream = alt if i % 7 == 3 else "wf"
             small = tier == "quick" and i % 3 != 0
             cases.append(gen_parser_case(rng, kind, stream, small, check=(i % 5 == 0)))
+    # the Gaussian94 merge rule is the most intricate piece of parser state: a dedicated stream of small files
+    # whose consecutive blocks share exponent lists (single-l and combined blocks in every order)
+    for i in range(45 * mult):
+        cases.append(gen_parser_case(rng, "gbs", "merge", True, check=(i % 9 == 0)))
     for i in range(40 * mult):
         cases.append(gen_mc_case(rng, invalid=(i % 5 == 4)))
     for i in range(10 * mult):
